@@ -196,6 +196,11 @@ def body_E2(ctx):
     if total > sh.get("max_msgs", 7):
         return
     drop = ctx.choose(total + 1, "dropped message (0 = none)")
+    # optionally a second loss: the very first message of one task (its root's start, or the
+    # whole of a one-message task) - so that several tasks can be incomplete at the end of the
+    # stream, some of them without the start of their root action
+    drop_first = ctx.choose(len(tasks) + 1, "task whose first message is lost as well (0 = none)") if sh.get("drop2") else 0
+    lost = {}  # task index -> levels of its lost messages
     # interleave: repeatedly pick which task delivers its next message
     cursors = [0] * len(tasks)
     stream = []
@@ -209,8 +214,9 @@ def body_E2(ctx):
         m = tasks[i][cursors[i]]
         cursors[i] += 1
         flat_index += 1
-        if flat_index == drop:
+        if flat_index == drop or (drop_first == i + 1 and cursors[i] == 1):
             dropped = (i, m)
+            lost.setdefault(i, []).append(m["task_level"])
             continue
         stream.append((i, m))
     last_index = {}
@@ -236,17 +242,19 @@ def body_E2(ctx):
     for i in present:
         uuid = tasks[i][0]["task_uuid"]
         when, t = [(w, t) for (w, t) in yielded if t.root().task_uuid == uuid][0]
-        whole = dropped is None or dropped[0] != i
+        whole = i not in lost
         if whole:
             ctx.check(t.is_complete(), "task %d received all its messages but is not complete", i)
             ctx.check(when == last_index[i], "complete task %d was yielded after input %d, its last message was input %d", i, when, last_index[i])
         else:
-            ctx.check(not t.is_complete(), "task %d misses message %r but is reported complete", i, dropped[1]["task_level"])
+            ctx.check(not t.is_complete(), "task %d misses messages %r but is reported complete", i, lost[i])
             ctx.check(when == len(stream) - 1 and fed == list(range(len(stream))), "incomplete task %d was yielded before the stream ended", i)
     ctx.nontrivial(tuple(ctx.trace))
     if dropped is not None:
         ctx.reached("dropped")
-    ctx.sample({"program": it.render(), "stream": [(i, m["task_level"]) for i, m in stream], "dropped": dropped and (dropped[0], dropped[1]["task_level"])})
+    if len(lost) >= 2:
+        ctx.reached("two-incomplete")
+    ctx.sample({"program": it.render(), "stream": [(i, m["task_level"]) for i, m in stream], "dropped": sorted(lost.items())})
 
 
 def E2() -> bool:
@@ -342,7 +350,7 @@ def _e1_shards(tier):
 
 def _e2_shards(tier):
     out = []
-    for base in ([{"N": 3, "D": 2, "max_msgs": 5}, {"N": 2, "D": 1, "max_msgs": 5, "empty_type": 1}] if tier == "quick" else [{"N": 4, "D": 2, "max_msgs": 7}, {"N": 3, "D": 2, "max_msgs": 6, "empty_type": 1}]):
+    for base in ([{"N": 3, "D": 2, "max_msgs": 5}, {"N": 2, "D": 1, "max_msgs": 5, "empty_type": 1}, {"N": 3, "D": 2, "max_msgs": 5, "drop2": 1}] if tier == "quick" else [{"N": 4, "D": 2, "max_msgs": 7}, {"N": 3, "D": 2, "max_msgs": 6, "empty_type": 1}, {"N": 3, "D": 2, "max_msgs": 6, "drop2": 1}]):
         out += [dict(base, prefix=p) for p in enumerate_prefixes(body_E2, "X", {}, base, 3)]
     return out
 
@@ -370,7 +378,7 @@ OBLIGATIONS = [
         shards=_e2_shards,
         twin=[{"N": 3, "D": 2, "max_msgs": 5, "twin_label": "dropped"}],
         timeout={"quick": 100, "thorough": 1200},
-        bounds={"quick": "2-3 tasks, <= 5 messages in total, every interleaving preserving per-task order, 0 or 1 dropped message", "thorough": "<= 7 messages in total"},
+        bounds={"quick": "2-3 tasks, <= 5 messages in total, every interleaving preserving per-task order, 0 or 1 dropped message; the same with, in addition, the first message of any one task lost (two incomplete tasks, one without its root's start)", "thorough": "<= 7 messages in total (<= 6 with the second loss)"},
     ),
     Ob(
         "E3",
